@@ -83,6 +83,9 @@ struct Ctx {
     active: usize,
     results: BTreeMap<String, u64>,
     kinds: Vec<Kind>,
+    /// traffic of the base epoch made before the race: (author, application message), (author, proposal)
+    traffic: Vec<(usize, MlsMessage, MlsMessage)>,
+    traffic_checks: u64,
 }
 
 fn obs<C: MlsConfig>(n: &Node<C>, classes: &mut Vec<Vec<u8>>, base: u64) -> String {
@@ -242,6 +245,42 @@ fn dfs<C: MlsConfig>(n: &Node<C>, depth: usize, trail: &mut Vec<(Op, String)>, c
                 }
             }
         }
+        // direct oracle: a member that holds a pending commit is still in its epoch for all other purposes — it decrypts the
+        // application messages and caches the proposals of that epoch (on a copy; the race itself is not disturbed)
+        if r.is_ok() {
+            for (i, g) in child.groups.iter().enumerate() {
+                if !g.has_pending_commit() || g.current_epoch() != cx.base_epoch {
+                    continue;
+                }
+                for (from, app, prop) in &cx.traffic {
+                    if *from == i {
+                        continue;
+                    }
+                    let mut c = g.clone();
+                    cx.traffic_checks += 1;
+                    if let Err(e) = c.process_incoming_message(app.clone()) {
+                        cx.fails.push(format!(
+                            "member {i} holds a pending commit after [{} {}] and cannot read an application message of its epoch from member {from}: {}",
+                            trail.iter().map(|(o, _)| o.s()).collect::<Vec<_>>().join(" "),
+                            op.s(),
+                            err_class(&e)
+                        ));
+                    }
+                    if let Err(e) = c.process_incoming_message(prop.clone()) {
+                        cx.fails.push(format!(
+                            "member {i} holds a pending commit after [{} {}] and cannot cache a proposal of its epoch from member {from}: {}",
+                            trail.iter().map(|(o, _)| o.s()).collect::<Vec<_>>().join(" "),
+                            op.s(),
+                            err_class(&e)
+                        ));
+                    }
+                    if !c.has_pending_commit() {
+                        cx.fails.push(format!("member {i} lost its pending commit by reading traffic of its epoch"));
+                    }
+                    break;
+                }
+            }
+        }
         // direct oracle: epochs never decrease and move by at most one
         for (i, g) in child.groups.iter().enumerate() {
             let e0 = n.groups[i].current_epoch();
@@ -296,6 +335,18 @@ fn setup<C: MlsConfig>(
     groups
 }
 
+/// application message + Update proposal of the passive member (the last one), made on the real group before the race starts:
+/// its ratchet / proposal cache advance, which the model does not observe
+fn make_traffic<C: MlsConfig>(groups: &mut [Group<C>]) -> Vec<(usize, MlsMessage, MlsMessage)> {
+    let p = groups.len() - 1;
+    let app = groups[p].encrypt_application_message(b"while pending", vec![]);
+    let prop = groups[p].propose_update(vec![]);
+    match (app, prop) {
+        (Ok(a), Ok(b)) => vec![(p, a, b)],
+        _ => vec![],
+    }
+}
+
 pub fn run(o: &Opts) -> i32 {
     crate::util::quiet_panics();
     let dir = o.str("out", "/verif/work/c11");
@@ -304,10 +355,12 @@ pub fn run(o: &Opts) -> i32 {
     let active = o.u64("active", 2) as usize;
     let log: SharedCryptoLog = Default::default();
     let mk = |s: &Setup, hd: &Handles, id, sk| mk_client(s, hd, id, sk);
-    let groups = setup(&mk, members, &log);
+    let mut groups = setup(&mk, members, &log);
     let base = groups[0].current_epoch();
+    let traffic0 = make_traffic(&mut groups);
     let root = Node { groups, commits: vec![] };
-    let mut cx = Ctx { qa: QA::create(&dir, "c11"), seqs: 0, ops: 0, fails: vec![], base_epoch: base, active, results: Default::default(), kinds: vec![Kind::Empty] };
+    let mut cx = Ctx { qa: QA::create(&dir, "c11"), seqs: 0, ops: 0, fails: vec![], base_epoch: base, active, results: Default::default(), kinds: vec![Kind::Empty], traffic: vec![], traffic_checks: 0 };
+    cx.traffic = traffic0;
     let mut classes = vec![];
     let _ = obs(&root, &mut classes, base);
     let mut trail = vec![];
@@ -331,6 +384,7 @@ pub fn run(o: &Opts) -> i32 {
             }
         }
         let base2 = groups[0].current_epoch();
+        cx.traffic = vec![];
         let root2 = Node { groups, commits: vec![] };
         cx.base_epoch = base2;
         let mut classes2 = vec![];
@@ -347,8 +401,9 @@ pub fn run(o: &Opts) -> i32 {
         vec![Kind::Empty, Kind::Remove(members - 1)],
         vec![Kind::Empty, Kind::Reinit],
     ] {
-        let groups = setup(&mk, members, &log);
+        let mut groups = setup(&mk, members, &log);
         let base3 = groups[0].current_epoch();
+        cx.traffic = make_traffic(&mut groups);
         let root3 = Node { groups, commits: vec![] };
         cx.base_epoch = base3;
         cx.kinds = kinds;
@@ -361,6 +416,7 @@ pub fn run(o: &Opts) -> i32 {
     println!("rows {rows}");
     println!("cases {}", cx.ops);
     println!("depth {depth}");
+    println!("traffic_checks {}", cx.traffic_checks);
     println!("cover {}", cx.results.iter().map(|(k, v)| format!("{k}={v}")).collect::<Vec<_>>().join(","));
     println!("oracle_failures {}", cx.fails.len());
     std::fs::write(format!("{dir}/c11.failures"), cx.fails.iter().take(200).cloned().collect::<Vec<_>>().join("\n")).unwrap();
